@@ -12,13 +12,13 @@ From Coq Require Import List NArith Arith Bool.
 From RT Require Import Model.StackTrace Model.StackProto Proofs.LockProofs Proofs.StackInvProofs Proofs.ResidueProofs.
 Import ListNotations.
 
-Theorem C16_quiescent_clean : forall size_oracle attempts tabs scripts sched,
+Theorem C16_quiescent_clean : forall size_oracle attempts tabs (scripts : list (bool * list apiop)) sched,
   init_ok tabs ->
   c16_ok (trace_of size_oracle attempts tabs scripts sched) = true.
 Proof. exact c16_all_traces. Qed.
 Print Assumptions C16_quiescent_clean.
 
-Theorem C16_idle_owns_nothing : forall size_oracle attempts tabs scripts sched w evs h hd,
+Theorem C16_idle_owns_nothing : forall size_oracle attempts tabs (scripts : list (bool * list apiop)) sched w evs h hd,
   run size_oracle attempts (init_world tabs scripts) sched = (w, evs) ->
   nth_error (w_handles w) h = Some hd -> h_pc hd = HIdle -> owns_nothing (w_fs w) h.
 Proof. exact idle_owns_nothing. Qed.
@@ -28,10 +28,10 @@ Print Assumptions C16_idle_owns_nothing.
    disk; the Clean of another handle unlinks them *)
 Local Open Scope N_scope.
 Example C16_ex_clean :
-  let tabs := [(0%nat, {| tf_min := 1; tf_max := 1; tf_txs := [100%nat]; tf_size := 100 |});
-               (1%nat, {| tf_min := 2; tf_max := 2; tf_txs := [101%nat]; tf_size := 100 |})] in
+  let tabs := [(0%nat, {| tf_min := 1; tf_max := 1; tf_txs := [100%nat]; tf_size := 100; tf_hash := false |});
+               (1%nat, {| tf_min := 2; tf_max := 2; tf_txs := [101%nat]; tf_size := 100; tf_hash := false |})] in
   let sched := map (fun _ => Step 0 None) (seq 0 15) ++ [Crash 0] ++ map (fun _ => Step 1 None) (seq 0 30) in
-  let tr := trace_of (fun _ => 100) 50 tabs [[AOpen; ACompactAll]; [AOpen; AClean; ARead]] sched in
+  let tr := trace_of (fun _ => 100) 50 tabs [(false, [AOpen; ACompactAll]); (false, [AOpen; AClean; ARead])] sched in
   c16_ok tr = true /\
   existsb (fun e => match e with EFs 1 FRemove (PT 0) FOk _ => true | _ => false end) tr = true /\
   existsb (fun e => match e with EFs 1 FRemove (PT 1) FOk _ => true | _ => false end) tr = true /\
